@@ -414,6 +414,21 @@ Definition hist_step_ok (s : osel) (buf : list byte) (op : val) (snap : val) : b
             | None => beq_list nb (ojoin s buf x) && is_vn res
             end
           else if tag_is t "clonefrom" then beq_list nb x && is_vn res
+          else if tag_is t "sext" then
+            (* C13 at any point of a history: without a file name false and untouched; with one (outside the
+               class D13) true, the new file name is stem[.ext] and the parent components are kept *)
+            if negb (sep_free s x) then true
+            else match spec_file_name s buf with
+                 | None => val_eqb res (VBool false) && beq_list nb buf
+                 | Some n =>
+                     let (stem, _) := split_name n in
+                     let newname := match x with [] => stem | _ => stem ++ 46 :: x end in
+                     let dotstem := match x with [] => beq_list stem [46] || beq_list stem [46; 46] | _ => false end in
+                     val_eqb res (VBool true) &&
+                     (dotstem ||
+                      (match spec_file_name s nb with Some n' => beq_list n' newname | None => false end
+                       && wlist_eqb (parent_comps s nb) (parent_comps s buf)))
+                 end
           else true
       | VC t [VI _] =>
           if tag_is t "reserve" || tag_is t "shrinkto" then beq_list nb buf && is_vn res else true
